@@ -508,3 +508,11 @@ fire("c11-planar-slope-boundary-accepted", "C11", B + "planar.py",
      "            if negative_slope <= 0:", "            if negative_slope < 0:", "C11.guard")
 fire("c08-coupling-shape-never-assigned", "C08", B + "coupling.py",
      "        self.shape = (dim,)", "        self.cond_shape = (dim,)", "C08.shape")
+
+# ------------------------------------------------------------------------------ indirection
+fire("c07-import-alias-softplus-is-relu", "C07", B + "softplus.py",
+     "from jax.nn import softplus", "from jax.nn import relu as softplus", "C07.formula")
+fire("c07-decorator-on-method-changes-result", ["C07", "C01"], B + "affine.py",
+     "    def transform(self, x, condition=None):\n        return x * self.scale + self.loc\n",
+     "    @(lambda m: (lambda self, x, condition=None: jnp.round(m(self, x, condition), 6)))\n"
+     "    def transform(self, x, condition=None):\n        return x * self.scale + self.loc\n")
